@@ -22,13 +22,16 @@ ASSUMPTIONS = ['cases whose assembled system has 1-norm condition number above 1
                'coefficient choice), not violations']
 
 
-def draw_terms(rng, m, g, phi, want_pair=True):
-    """returns list of (term object, kind string, Mpart or None, vpart or None)"""
+def draw_terms(rng, m, g, phi, want_pair=True, units=None):
+    """returns list of (term object, kind string, Mpart or None, vpart or None); units = {'L','T','K'}: every coefficient is
+    expressed in that unit system (D x L^2/T, u x L/T, beta x 1/T, gamma x K/T, dt x T)"""
+    un = units or {'L': 1.0, 'T': 1.0, 'K': 1.0}
+    L_, T_, K_ = un['L'], un['T'], un['K']
     D, _ = gen.face_arrays(rng, g, 'random', positive=True)
     u, _ = gen.face_arrays(rng, g, 'sign')
-    Df, uf = gen.facevar(pf, m, D), gen.facevar(pf, m, [0.3 * a for a in u])
+    Df, uf = gen.facevar(pf, m, [a * L_ ** 2 / T_ for a in D]), gen.facevar(pf, m, [0.3 * a * L_ / T_ for a in u])
     pool = []
-    dt = float(10 ** rng.uniform(-2, 2))
+    dt = float(10 ** rng.uniform(-2, 2)) * T_
     alpha = float(10 ** rng.uniform(-1, 1)) if rng.random() < 0.6 else pf.CellVariable(m, np.exp(rng.normal(0, 0.5, g.dims)))
     tr = pf.transientTerm(phi, dt, alpha)
     pool.append((tr, 'pair:transient'))
@@ -41,9 +44,9 @@ def draw_terms(rng, m, g, phi, want_pair=True):
     elif choice < 0.7:
         pool.append((pf.convectionTerm(uf), 'M:central'))
     if rng.random() < 0.6:
-        pool.append((pf.linearSourceTerm(pf.CellVariable(m, np.abs(rng.normal(0, 1, g.dims)))), 'M:linsource'))
+        pool.append((pf.linearSourceTerm(pf.CellVariable(m, np.abs(rng.normal(0, 1, g.dims)) / T_)), 'M:linsource'))
     if rng.random() < 0.7:
-        pool.append((pf.constantSourceTerm(pf.CellVariable(m, rng.normal(0, 1, g.dims))), 'v:constsource'))
+        pool.append((pf.constantSourceTerm(pf.CellVariable(m, rng.normal(0, 1, g.dims) * K_ / T_)), 'v:constsource'))
     if rng.random() < 0.3:
         pool.append((pf.divergenceTerm(Df * pf.gradientTerm(phi)) * 0.1, 'v:divergence'))
     out = []
@@ -69,8 +72,8 @@ def draw_terms(rng, m, g, phi, want_pair=True):
             if rng.random() < 0.1:
                 out.append((term, kind))
     if want_pair and rng.random() < 0.3:
-        Mx = pf.linearSourceTerm(pf.CellVariable(m, np.abs(rng.normal(0, 1, g.dims))))
-        vx = pf.constantSourceTerm(pf.CellVariable(m, rng.normal(0, 1, g.dims)))
+        Mx = pf.linearSourceTerm(pf.CellVariable(m, np.abs(rng.normal(0, 1, g.dims)) / T_))
+        vx = pf.constantSourceTerm(pf.CellVariable(m, rng.normal(0, 1, g.dims) * K_ / T_))
         out.append(((Mx, vx), 'pair:generic'))
     order = rng.permutation(len(out))
     return [out[i] for i in order]
@@ -91,10 +94,10 @@ def assemble(phi, terms):
     return sp.csr_array(M), b
 
 
-def make_problem(rng, cls, nmax, keep_open=None):
-    faces, meta = gen.gen_grid(rng, cls, nmin=1, nmax=nmax)
+def make_problem(rng, cls, nmax, keep_open=None, units=None, geo=None):
+    gfam, gopts = gen.geo_opts(rng, geo)
+    faces, meta = gen.gen_grid(rng, cls, nmin=1 if not geo else 2, nmax=nmax, family=gfam, opts=gopts)
     g = Geom(cls, faces)
-    m = gen.build_mesh(pf, cls, faces)
     capable = [k for k in range(g.nd) if gen.periodic_ok(cls, k) and abs(g.w[k][0] - g.w[k][-1]) <= 1e-12 * g.w[k][0]]
     per = [k for k in capable if rng.random() < 0.25]
     if keep_open is not None:
@@ -103,6 +106,12 @@ def make_problem(rng, cls, nmax, keep_open=None):
         spec = gen.gen_bc_spec(rng, g, periodic_axes=per, lams=(1.0, -1.0, 2.5, 0.4))
         if gen.bc_nonsingular(g, spec):
             break
+    if units:
+        # the same problem in another unit system (well-posedness is decided above, in the original units)
+        faces = gen.scale_faces(cls, faces, units['L'])
+        spec = gen.scale_spec(spec, units['L'], units['K'])
+        g = Geom(cls, faces)
+    m = gen.build_mesh(pf, cls, faces)
     return faces, meta, g, m, spec
 
 
@@ -114,10 +123,18 @@ def ghost_rows_index(g):
 
 
 def run_system(case, rng, cls):
-    faces, meta, g, m, spec = make_problem(rng, cls, case.get('nmax', 4), case.get('edit_side'))
+    units = gen.draw_units(rng) if case.get('units') else None
+    faces, meta, g, m, spec = make_problem(rng, cls, case.get('nmax', 4), case.get('edit_side'), units=units, geo=case.get('geo'))
     cov, maxerr, bad = {}, {}, []
+    if units:
+        for k_, v_ in units.items():
+            cov['unit_%s:%s' % (k_, 'small' if v_ < 1 else ('large' if v_ > 1 else '1'))] = 1
+    if case.get('geo'):
+        cov['geo:' + case['geo']] = 1
+    Ku = units['K'] if units else 1.0
     BC = gen.make_bc(pf, m, g, spec)
     vals, _ = gen.cell_field(rng, g.dims, 'random')
+    vals = vals * Ku
     phi = pf.CellVariable(m, vals.copy(), BC)
     edited = None
     if case.get('edit_side') or rng.random() < 0.5:
@@ -134,29 +151,29 @@ def run_system(case, rng, cls):
             how = str(rng.choice(['setter', 'setter', 'untracked+apply_BCs', 'replace-object+apply_BCs']))
             if how == 'setter':
                 if rng.random() < 0.5:
-                    fe.c = np.asarray(fe.c) + 0.5
+                    fe.c = np.asarray(fe.c) + 0.5 * Ku
                 elif np.all(np.asarray(fe.a) == 0):
-                    fe.fixedGradient(0.3)
+                    fe.fixedGradient(0.3 * Ku / (units['L'] if units else 1.0))
                 else:
-                    fe.fixedValue(-0.4)
+                    fe.fixedValue(-0.4 * Ku)
             elif how == 'untracked+apply_BCs':
                 # in-place operations that the dirty flags cannot see (documented TrackedArray limitation), followed by the
                 # explicit apply_BCs() the documentation prescribes for such expert use
                 if rng.random() < 0.5:
-                    fe.c.fill(float(rng.normal()))
+                    fe.c.fill(float(rng.normal()) * Ku)
                 else:
-                    np.copyto(fe.c, np.asarray(fe.c) * 0.5 - 0.7)
+                    np.copyto(fe.c, np.asarray(fe.c) * 0.5 - 0.7 * Ku)
                 phi.apply_BCs()
             else:
                 from copy import deepcopy
                 nb = deepcopy(phi.BCs)
-                getattr(nb, edited).c = np.asarray(fe.c) * 2.0 + 0.9
+                getattr(nb, edited).c = np.asarray(fe.c) * 2.0 + 0.9 * Ku
                 nb.modified = False
                 phi.BCs = nb
                 phi.apply_BCs()
             cov['side_edit:' + edited] = 1
             cov['side_edit_how:' + how] = 1
-    terms = draw_terms(rng, m, g, phi)
+    terms = draw_terms(rng, m, g, phi, units=units)
     Ms, bs = assemble(phi, terms)
     kinds = sorted(k for _, k in terms)
     spy = SpySolver()
@@ -167,11 +184,14 @@ def run_system(case, rng, cls):
     if not np.all(np.isfinite(x)):
         return None, cov, maxerr, meta, faces, spec, kinds, 'singular system'
     if n <= 700:
-        cond = np.linalg.cond(Ms.toarray(), 1)
+        # well-posedness is judged on the row-equilibrated matrix (a unit system puts boundary rows at O(1) and interior rows at
+        # O(1/T)); direct comparisons of two computed solutions use the plain condition number, which bounds their rounding
+        cond = gen.equilibrated_cond(Ms)
         if not np.isfinite(cond) or cond > 1e10:
             return None, cov, maxerr, meta, faces, spec, kinds, 'ill-conditioned system (cond %.3g)' % cond
+        cond_plain = float(np.linalg.cond(Ms.toarray(), 1))
     else:
-        cond = None
+        cond = cond_plain = None
     if ret is not phi:
         bad.append(('identity', 'solvePDE did not return the variable it was given'))
     if len(spy.calls) != 1:
@@ -202,7 +222,18 @@ def run_system(case, rng, cls):
     periodic_unequal = False
     e = residual_err(Ms, xin, bs, rows, solver_output=True)
     maxerr['residual-interior-stored'] = e
-    if not (e <= TOL):
+    # the re-imposed boundary values are recomputed from the boundary relation; the solved ones carry the solver's norm-wise
+    # backward error relative to THEIR row, i.e. amplified by (largest row scale)/(smallest boundary-row scale)
+    from ..common import absmv
+    s_rows = absmv(Ms, xin) + np.abs(bs)
+    gr_ = ghost_rows_index(g)
+    s_bc = s_rows[gr_]
+    s_bc = s_bc[s_bc > 0]
+    amp = float(np.max(s_rows)) / float(np.min(s_bc)) if s_bc.size else 1.0
+    allowed_stored = TOL + 64.0 * n * np.finfo(float).eps * amp
+    if allowed_stored > 1e-4:
+        cov['stored_clause_skipped_row_scaling'] = 1
+    elif not (e <= allowed_stored):
         bad.append(('residual-stored', 'values left in the variable (with re-imposed boundary values) violate the interior equations (normalised %.3g)' % e))
     # default path equals solveMatrixPDE on the hand-assembled system
     phi2 = pf.CellVariable(m, vals.copy(), gen.make_bc(pf, m, g, spec))
@@ -213,7 +244,10 @@ def run_system(case, rng, cls):
     with np.errstate(all='ignore'):
         pf.solvePDE(phi2, terms2)
         ref = pf.solveMatrixPDE(m, Ms, bs)
-    if cond is not None and cond < 1e10:
+    if cond_plain is not None and not (cond_plain < 1e11):
+        cov['direct_clause_skipped_cond'] = 1
+    if cond_plain is not None and cond_plain < 1e11:
+        cond = cond_plain
         scale = float(np.max(np.abs(ref.value))) + 1e-300
         e = float(np.max(np.abs(np.asarray(phi2.value) - np.asarray(ref.value)))) / scale
         maxerr['default-vs-solveMatrixPDE/cond'] = e / cond
@@ -335,6 +369,14 @@ def plan(tier, seed):
             for rep in range(n):
                 cases.append({'cls': cls, 'kind': kind, 'seed': [seed, 4, ci, i], 'nmax': 4 if NDIM[cls] < 3 else 3})
                 i += 1
+        for rep in range(16 if tier == 'quick' else 200):     # the same kind of systems posed in extreme unit systems / special geometries
+            c_ = {'cls': cls, 'kind': 'system', 'seed': [seed, 4, ci, i], 'nmax': 4 if NDIM[cls] < 3 else 3}
+            if rep % 2 == 1:
+                c_['geo'] = ['int', 'jitter', 'int', 'nano'][(rep // 2) % 4]
+            else:
+                c_['units'] = True
+            cases.append(c_)
+            i += 1
         for k_ in range(NDIM[cls]):          # directed: the BCs of each single side edited after the variable exists
             for side in SIDES[k_]:
                 for rep in range(3 if tier == 'quick' else 20):
@@ -354,7 +396,8 @@ def floors(agg, tier):
                 out.append('kind:%s:%s < %d' % (kind, cls, need))
     for k in ('termkind:pair:transient', 'termkind:M:-diffusion', 'termkind:M:upwind', 'termkind:M:central', 'termkind:v:constsource',
               'termkind:v:tvd', 'termkind:pair:generic', 'default_path_checked', 'side_edit:left', 'side_edit:right', 'side_edit:bottom', 'side_edit:top', 'side_edit:back', 'side_edit:front',
-              'side_edit_how:setter', 'side_edit_how:untracked+apply_BCs', 'side_edit_how:replace-object+apply_BCs'):
+              'side_edit_how:setter', 'side_edit_how:untracked+apply_BCs', 'side_edit_how:replace-object+apply_BCs',
+              'unit_L:small', 'unit_L:large', 'unit_T:small', 'unit_T:large', 'unit_K:small', 'unit_K:large', 'geo:int', 'geo:jitter'):
         if agg['cov'].get(k, 0) < 5:
             out.append('%s < 5' % k)
     return out
